@@ -145,6 +145,9 @@ func newChannelWith(ctx context.Context, pipeline Pipeline, transport transport.
 const idle = 0
 const running = 1
 
+// closeStored is the value of channel.closed once closeErr has been stored (1 while Close is still waiting).
+const closeStored = 2
+
 // implement of Channel
 type channel struct {
 	id             int64
@@ -174,7 +177,7 @@ func (c *channel) Write(message Message) error {
 	if !c.IsActive() {
 		select {
 		case <-c.ctx.Done():
-			return c.closeErr
+			return c.closeError()
 		}
 	}
 
@@ -218,6 +221,8 @@ func (c *channel) Close(err error) {
 
 		verifAt(vpCloseWaited, c)
 		c.closeErr = err
+		// publish closeErr: writers only read it after they have seen closeStored
+		atomic.StoreInt32(&c.closed, closeStored)
 		c.transport.Close()
 		verifAt(vpCloseTransportClosed, c)
 		c.cancel()
@@ -231,8 +236,8 @@ func (c *channel) Close(err error) {
 
 // Writev to write [][]byte for optimize syscall
 func (c *channel) Writev(p [][]byte) (n int64, err error) {
-	if nil != c.closeErr {
-		return 0, c.closeErr
+	if err := c.closeError(); nil != err {
+		return 0, err
 	}
 
 	// enable async write
@@ -311,8 +316,8 @@ func (c *channel) CtxWritev(ctx context.Context, pv [][]byte) (n int64, err erro
 // ReadFrom reads data from r until EOF or error.
 // The return value n is the number of bytes read.
 func (c *channel) ReadFrom(r io.Reader) (n int64, err error) {
-	if nil != c.closeErr {
-		return 0, c.closeErr
+	if err := c.closeError(); nil != err {
+		return 0, err
 	}
 
 	const MinRead = 1024
@@ -353,8 +358,8 @@ func (c *channel) Writer() io.Writer {
 }
 
 func (c *channel) write1(p []byte, clone bool) (n int, err error) {
-	if nil != c.closeErr {
-		return 0, c.closeErr
+	if err := c.closeError(); nil != err {
+		return 0, err
 	}
 
 	// enable async write
@@ -395,7 +400,7 @@ func (c *channel) asyncWrite(ctx context.Context, p []byte, clone bool) (int64, 
 		case <-ctx.Done():
 			return 0, ctx.Err()
 		case <-c.ctx.Done():
-			return 0, c.closeErr
+			return 0, c.closeError()
 		case c.writeQueue <- packet:
 			// write queue
 		}
@@ -404,7 +409,7 @@ func (c *channel) asyncWrite(ctx context.Context, p []byte, clone bool) (int64, 
 		case <-ctx.Done():
 			return 0, ctx.Err()
 		case <-c.ctx.Done():
-			return 0, c.closeErr
+			return 0, c.closeError()
 		case c.writeQueue <- packet:
 			// write queue
 		default:
@@ -446,7 +451,7 @@ func (c *channel) asyncWritev(ctx context.Context, p [][]byte) (int64, error) {
 		case <-ctx.Done():
 			return 0, ctx.Err()
 		case <-c.ctx.Done():
-			return 0, c.closeErr
+			return 0, c.closeError()
 		case c.writeQueue <- packet:
 			// write queue
 		}
@@ -455,7 +460,7 @@ func (c *channel) asyncWritev(ctx context.Context, p [][]byte) (int64, error) {
 		case <-ctx.Done():
 			return 0, ctx.Err()
 		case <-c.ctx.Done():
-			return 0, c.closeErr
+			return 0, c.closeError()
 		case c.writeQueue <- packet:
 			// write queue
 		default:
@@ -470,6 +475,14 @@ func (c *channel) asyncWritev(ctx context.Context, p [][]byte) (int64, error) {
 		c.executor.Exec(c.writeOnce)
 	}
 	return dataLen, nil
+}
+
+// closeError returns the error the channel was closed with, nil while Close has not stored it yet.
+func (c *channel) closeError() error {
+	if closeStored == atomic.LoadInt32(&c.closed) {
+		return c.closeErr
+	}
+	return nil
 }
 
 // IsActive return true if the Channel is active and so connected
